@@ -25,6 +25,10 @@ FAMILIES = {
     "thorough": ["t_expunge", "t_uid", "t_search", "t_move", "t_idle", "t_close", "t_flags", "t_three"],
 }
 TRACE, TRACE_CFG = "MemViewsTrace", "MemViewsTrace.cfg"
+# vacuity gate: every command form of the statement must label a replayed transition
+ALL_COMMANDS = ["NOOP", "APPEND", "SELECT", "UNSELECT", "CLOSE", "FETCH", "UID-FETCH", "STORE", "UID-STORE",
+                "SEARCH", "UID-SEARCH", "EXPUNGE", "UID-EXPUNGE", "COPY", "UID-COPY", "MOVE", "UID-MOVE",
+                "IDLE", "DONE"]
 
 
 def run(ctx):
@@ -61,7 +65,7 @@ def run(ctx):
     with ThreadPoolExecutor(max_workers=3) as ex:
         results = list(ex.map(work, jobs))
 
-    lat_taken, lat_not, fam_stats = {}, {}, {}
+    lat_taken, lat_not, fam_stats, commands = {}, {}, {}, {}
     star_example, late, mc_states = None, 0, 0
     for kind, name, r, recs in results:
         if r.status != "ok":
@@ -87,12 +91,20 @@ def run(ctx):
         for k, v in (s.get("latitude_not_taken") or {}).items():
             lat_not[k] = lat_not.get(k, 0) + v
         late += s.get("late_idle_wakeups", 0)
+        for k, v in (s.get("commands") or {}).items():
+            commands[k] = commands.get(k, 0) + v
         star_example = star_example or s.get("star_rfc_not_taken_example")
         for smp in (s.get("samples") or [])[:1]:
             ctx.sample({"replayed": smp})
 
+    missing = [c for c in ALL_COMMANDS if not commands.get(c)]
+    if missing and not ctx.violations and not ctx.known_hits:
+        raise vlib.Infra("vacuous: no fully replayed transition is labelled %s" % missing)
+    if missing:
+        ctx.notes.append("no fully replayed transition labelled %s (behaviours stop at the first divergence)" % missing)
+
     # ---- 3: random histories judged by MemViewsTrace
-    ntr, nfiles = (24, 1) if quick else (80, 3)
+    ntr, nfiles = (16, 1) if quick else (80, 3)
 
     def record(i):
         tr = os.path.join(ctx.scratch, "memviews-%d.ndjson" % i)
@@ -106,7 +118,7 @@ def run(ctx):
 
     with ThreadPoolExecutor(max_workers=3) as ex:
         recorded = list(ex.map(record, range(nfiles)))
-    trace_records, garbled, idle_deliveries, demo = 0, 0, 0, None
+    trace_records, garbled, idle_deliveries, foreign, demo = 0, 0, 0, 0, None
     for tr, s, ok, at, res in recorded:
         lines = open(tr).read().splitlines()
         bad = bad_lines(res.out_path)
@@ -119,6 +131,7 @@ def run(ctx):
                          {"kind": "trace", "prefix": vlib.trace_prefix(tr, b["line"])})
         garbled += s.get("garbled_completions", 0)
         idle_deliveries += s.get("idle_deliveries", 0)
+        foreign += s.get("expunges_of_other_sessions_delivered", 0)
         trace_records += s["records"]
         ctx.cov["evaluations"] += s["records"]
         # traces (Reset .. next Reset) without any BAD line were accepted as recorded
@@ -140,7 +153,8 @@ def run(ctx):
                "latitude_taken": lat_taken, "latitude_not_taken": lat_not,
                "star_resolution_example_rfc_reading_not_taken": star_example,
                "garbled_empty_copy_completions_in_traces": garbled, "idle_deliveries_in_traces": idle_deliveries,
-               "late_idle_wakeups": late})
+               "late_idle_wakeups": late, "replayed_transitions_by_command": commands,
+               "expunges_of_other_sessions_delivered_in_traces": foreign})
 
 
 def bad_lines(out_path):
